@@ -8,6 +8,7 @@ import (
 	"os/exec"
 	"path/filepath"
 	"strings"
+	"syscall"
 	"time"
 
 	"verif/sim"
@@ -65,12 +66,21 @@ func needsChild(spec *RunSpec) bool {
 		if strings.HasSuffix(f.Path, ".plist") && strings.Contains(f.Src.Fix, "BinaryApp") {
 			return true
 		}
+		// saferwall/pe sizes allocations from header fields: a mutated PE file can exhaust the
+		// memory of the process (fatal, not a panic)
+		if spec.OS == "windows" && strings.Contains(f.Src.Fix, "dotnetpe/testdata") && f.Src.HasOps() {
+			return true
+		}
 	}
 	return false
 }
 
 // childMain is called by TestWorker when the process is a child; it never returns normally.
 func childMain(checks []evaluator) {
+	// an address-space cap: an allocation sized from a corrupted header fails at once (fatal
+	// "out of memory", reported as a crash) instead of driving the machine into swap
+	lim := syscall.Rlimit{Cur: 8 << 30, Max: 8 << 30}
+	syscall.Setrlimit(syscall.RLIMIT_AS, &lim)
 	b, err := os.ReadFile(os.Getenv(envChild))
 	if err != nil {
 		fmt.Fprintln(os.Stderr, "harness child:", err)
